@@ -34,7 +34,7 @@ TableDevs(l0, e) ==
 Init == l = 1 /\ bad = <<>> /\ cnt = << >>
 Next == /\ l <= Len(Trace)
         /\ LET e == Trace[l]
-           IN  /\ bad' = AddBad(bad, CASE e.ev = "divide" -> DivideDevs(l, e) [] e.ev = "bary" -> BaryDevs(l, e) [] e.ev = "poly_tables" -> TableDevs(l, e))
+           IN  /\ bad' = AddBad(bad, CASE e.ev = "divide" -> DivideDevs(l, e) [] e.ev = "bary" -> BaryDevs(l, e) [] e.ev = "bary_pre" -> <<>> [] e.ev = "poly_tables" -> TableDevs(l, e))
                /\ cnt' = Bump(cnt, IF e.ev = "bary" /\ e.full THEN "bary-full" ELSE e.ev)
         /\ l' = l + 1
 Spec == Init /\ [][Next]_vars
